@@ -61,3 +61,17 @@ Definition resps (o : option state) : list (tid * option response) :=
   match o with Some s => map (fun p => (fst p, t_resp (snd p))) (threads s) | None => [] end.
 Definition owners (o : option state) : list tid :=
   match o with Some s => map e_owner (persisted s) | None => [] end.
+
+(* ---- known finding "idempotency key stored by another kind of write" --------------------------------------- *)
+(* a transaction with key 5 is written and acknowledged; then SaveMeta with the same key: the key is found, the
+   stored entry is a transaction, SaveMeta answers success (and publishes) although nothing was written *)
+Definition rq_pay_k : request :=
+  {| rq_kind := KCreate; rq_ik := 5%N; rq_ref := 0%N; rq_dry := false; rq_postings := [(world, 1%N, 10%Z)];
+     rq_unb := false; rq_revert := 0; rq_target_tx := None |}.
+Definition rq_meta_k : request :=
+  {| rq_kind := KSaveMeta; rq_ik := 5%N; rq_ref := 0%N; rq_dry := false; rq_postings := [];
+     rq_unb := false; rq_revert := 0; rq_target_tx := None |}.
+Definition sched_ik_kinds : list action :=
+  [AStart 0 rq_pay_k; AResume 0; AResume 0; AResume 0; AResume 0; AResume 0; AResume 0; AResume 0; AResume 0;
+   AResume 0; AResume 0; APersistOk; AResume 0; AResume 0; AResume 0;
+   AStart 1 rq_meta_k; AResume 1; AResume 1].
